@@ -161,7 +161,11 @@ func descs(tier string) []*desc {
 	return out
 }
 
-var eventTypes = []el.EventType{"audit", `a"b\c`, "line\nbreak", "héllo✓<tag>"}
+var eventTypes = []el.EventType{"audit", `a"b\c`, "line\nbreak", "héllo✓<tag>", "ctl\x01\x7f\x1b", "bad\xffutf8", "\U000E0001\U0010FFFFrare"}
+
+// typeImage is what a JSON string can carry of an event type: invalid UTF-8 is
+// replaced by U+FFFD (as for payload strings), everything else round-trips.
+func typeImage(t el.EventType) string { return strings.ToValidUTF8(string(t), "\uFFFD") }
 
 func equalVals(a, b interface{}) bool {
 	// DeepEqual except that NaN equals NaN and funcs/chans compare by identity
@@ -201,8 +205,37 @@ func norm(v interface{}) interface{} {
 
 var errPred = errors.New("predicate fails")
 
-// one case: payload descriptor x event type x node variant
+// stability: the bytes stored for an earlier event must not change when later
+// events are formatted (a formatter may not keep writing into them)
+type prevRec struct {
+	e *el.Event
+	b []byte
+}
+
+// one remembered event per node variant, so that the event a formatter produced
+// is re-read after the SAME formatter type has formatted the next event
+var prev = map[int]prevRec{}
+
+func stable() string {
+	for variant, p := range prev {
+		b, ok := p.e.Format(el.JSONFormat)
+		if !ok || !bytes.Equal(b, p.b) {
+			return fmt.Sprintf("the json bytes stored for an earlier event (node variant %d) changed from %q to %q when another event was formatted", variant, p.b, b)
+		}
+	}
+	return ""
+}
+
 func runCase(d *desc, typ el.EventType, variant int) string {
+	v := runCaseInner(d, typ, variant)
+	if v == "" {
+		v = stable()
+	}
+	return v
+}
+
+// one case: payload descriptor x event type x node variant
+func runCaseInner(d *desc, typ el.EventType, variant int) string {
 	created := time.Date(2024, 2, 29, 23, 59, 59, 123456789, time.FixedZone("X", 3*3600+1800))
 	payload := build(d)
 	twin := build(d)
@@ -284,12 +317,16 @@ func runCase(d *desc, typ el.EventType, variant int) string {
 	if perr != nil || !pt.Equal(created) {
 		return fmt.Sprintf("created_at %q does not decode back to the creation time", ts)
 	}
-	if et, _ := got["event_type"].(string); et != string(typ) {
+	if et, _ := got["event_type"].(string); et != typeImage(typ) {
 		return fmt.Sprintf("event_type %q does not decode back to %q", et, typ)
 	}
 	if !reflect.DeepEqual(got["payload"], img) {
 		return fmt.Sprintf("payload member decodes to %#v, the JSON image of the payload is %#v", got["payload"], img)
 	}
+	if v := stable(); v != "" {
+		return v
+	}
+	prev[variant] = prevRec{e, append([]byte(nil), b...)}
 	return ""
 }
 
@@ -462,7 +499,7 @@ func main() {
 				for i := job.Scn * chunk; i < min((job.Scn+1)*chunk, len(ds)); i++ {
 					for ti, typ := range eventTypes {
 						for variant := 0; variant < 5; variant++ {
-							if ti > 0 && variant > 1 && i%5 != 0 {
+							if ti > 0 && variant > 1 && (i+ti)%5 != 0 {
 								continue
 							}
 							v := runCase(ds[i], typ, variant)
@@ -498,7 +535,7 @@ func main() {
 				return hk.ExploreJob(prop, job, deadline, ex, fmt.Sprintf("program %d nilTable=%v", k/2, k%2 == 1))
 			}
 		},
-		Rule: "payloads: every value of a JSON grammar with leaves {\"\", ascii, quotes/backslash/control characters, invalid UTF-8, <>& and U+2028, 2^53+1, -1, 1.5, nil, true, NaN, +Inf, chan, func, complex} in containers {map, slice of 1-2, struct with json tags incl. omitempty, pointer} nested up to depth 3 (level 3 sampled 1-in-7 in quick, complete in thorough) x event types {plain, quote+backslash, newline, unicode+html} x {JSONFormatter, JSONFormatterFilter with predicate absent/true/false/error}. Oracle: one newline-terminated line, valid JSON with exactly created_at/event_type/payload decoding back to the creation time, the type and the JSON image computed from the descriptor; payload/type/time untouched; unencodable => (nil, err) and nothing stored; forwarding truth tables incl. Filter. Event.FormattedAs/Format: 4 programs of 2-3 threads x 2 operations on 2 keys (with and without a pre-made table), ALL interleavings under the race detector, results must be linearizable to a last-writer-wins map (brute force).",
+		Rule: "payloads: every value of a JSON grammar with leaves {\"\", ascii, quotes/backslash/control characters, invalid UTF-8, <>& and U+2028, 2^53+1, -1, 1.5, nil, true, NaN, +Inf, chan, func, complex} in containers {map, slice of 1-2, struct with json tags incl. omitempty, pointer} nested up to depth 3 (level 3 sampled 1-in-7 in quick, complete in thorough) x event types {plain, quote+backslash, newline, unicode+html, control bytes + DEL + ESC, invalid UTF-8, unassigned / plane-14 / U+10FFFF runes} x {JSONFormatter, JSONFormatterFilter with predicate absent/true/false/error}. Oracle: one newline-terminated line, valid JSON with exactly created_at/event_type/payload decoding back to the creation time, the type and the JSON image computed from the descriptor; payload/type/time untouched; unencodable => (nil, err) and nothing stored; the bytes stored for the previously formatted event stay unchanged (no buffer reuse); forwarding truth tables incl. Filter. Event.FormattedAs/Format: 4 programs of 2-3 threads x 2 operations on 2 keys (with and without a pre-made table), ALL interleavings under the race detector, results must be linearizable to a last-writer-wins map (brute force).",
 		Assumptions: []string{
 			"encoding/json's decoder is the independent reader of the emitted bytes; the expected image is computed from the value's descriptor, never by encoding the value",
 		},
